@@ -56,7 +56,11 @@ func stdSeqConcat(_ context.Context, seq rel.Value) (rel.Value, error) {
 		result := v0
 		for _, value := range values[1:] {
 			var err error
-			result, err = rel.Concatenate(result, value.(rel.Set))
+			set, is := value.(rel.Set)
+			if !is {
+				return nil, fmt.Errorf("//seq.concat: array item not a set: %v", value)
+			}
+			result, err = rel.Concatenate(result, set)
 			if err != nil {
 				return nil, err
 			}
